@@ -113,6 +113,14 @@ CHECKS['C17'] = ('exhaustive walk of the lattice of relaxation-option subsets (a
                  'corpus (575 catalogue texts + breakage texts) is parsed under S and S+{o}: accepted texts keep their tree; each '
                  'documented breakage at every position is accepted under its option with the corrected text\'s tree; exactly the '
                  'subsets with supportIndex => supportSmiV1Keywords build; unknown options raise PySmiError.', '5.C17')
+CHECKS['C20'] = ('bounded exhaustive enumeration of on-disk worlds x option subsets x formats for mibdump (judged by the compile() '
+                 'reference model) and of all source-argument permutations for mibcopy, scripts executed in-process',
+                 'Worlds of the compile() reference model are realised as directories (absent / broken / misnamed / two-module '
+                 'files, up-to-date destination copies, borrowable copies) and mibdump is run with every option subset of the bound: '
+                 'exit code 0 iff nothing is missing/failed, every module named in exactly the report line of its status, destination '
+                 'files = written modules; usage errors exit 64.  mibcopy: every multiset of 2-3 copies with revisions none/old/mid/'
+                 'new x destination state x every permutation of the source arguments: the destination holds a latest-revision copy.',
+                 '5.C20')
 NOT_YET = {}
 
 ALL = ['C%02d' % i for i in range(1, 21)]
